@@ -23,7 +23,7 @@ ListLens(max) == {0, 1, 2, 3, max - 1, max}
 ---------------------------------------------------------------------------
 BaseRB == [ ssrc |-> D4(17), fl |-> 85, lost |-> << 0, 33, 34, 35 >>, seq |-> D4(49),
             jit |-> D4(65), lsr |-> D4(81), dlsr |-> D4(97) ]
-RBn(i) == [BaseRB EXCEPT !.ssrc = << i, 200, 100, i >>, !.fl = i]
+RBn(i) == [BaseRB EXCEPT !.ssrc = << i % 256, 200, 100 + i \div 256, i % 256 >>, !.fl = i % 256]
 RBs(n) == [i \in 1..n |-> RBn(i)]
 RBDom  == {BaseRB} \cup Vary(BaseRB, "ssrc", U32Set) \cup Vary(BaseRB, "fl", U8Set)
           \cup Vary(BaseRB, "lost", { << 0, 0, 0, 0 >>, << 0, 255, 255, 255 >>, << 0, 128, 0, 0 >>, << 0, 0, 0, 1 >>, << 0, 0, 1, 0 >> })
@@ -257,16 +257,18 @@ FloatLimits == { [s |-> 1, e |-> 0, f |-> 0], [s |-> 1, e |-> 0, f |-> 1], [s |-
 \* a TWCC value with one delta (at position pos of n received packets) replaced
 TwccWithDelta(n, pos, t, ticks) ==
   MkTWCC(n, << Rl(t, n) >>, [i \in 1..n |-> IF i = pos THEN Dl(t, ticks) ELSE Dl(t, 10 + i)], FALSE)
+\* beyond a limit, counts that are small again modulo 256 (an 8-bit count field or variable wraps)
+WrapCounts == {255, 256, 257, 261, 287, 288, 512}
 LimitDom ==
-  { [BaseSR EXCEPT !.reports = RBs(n)] : n \in {30, 31, 32, 33} }
-  \cup { [BaseRR EXCEPT !.reports = RBs(n)] : n \in {30, 31, 32, 33} }
+  { [BaseSR EXCEPT !.reports = RBs(n)] : n \in {30, 31, 32, 33} \cup WrapCounts }
+  \cup { [BaseRR EXCEPT !.reports = RBs(n)] : n \in {30, 31, 32, 33} \cup WrapCounts }
   \cup { [BaseSR EXCEPT !.reports = << [BaseRB EXCEPT !.lost = x] >>] : x \in LostVals }
   \cup { [BaseRR EXCEPT !.reports = << RBn(1), [BaseRB EXCEPT !.lost = x] >>] : x \in LostVals }
-  \cup { [k |-> "SDES", chunks |-> [i \in 1..n |-> Chunk1(i, << Item(1, 2) >>)]] : n \in {30, 31, 32} }
+  \cup { [k |-> "SDES", chunks |-> [i \in 1..n |-> Chunk1(i % 256, << Item(1, 2) >>)]] : n \in {30, 31, 32} \cup WrapCounts }
   \cup { [k |-> "SDES", chunks |-> << Chunk1(1, << Item(1, n) >>) >>] : n \in TextLens }
   \cup { [k |-> "SDES", chunks |-> << Chunk1(1, << Item(2, 3), Item(t, 3) >>) >>] : t \in {0, 1} }
   \cup { [k |-> "SDES", chunks |-> << Chunk1(1, << Item(0, 0) >>) >>] }
-  \cup { [k |-> "BYE", srcs |-> [i \in 1..n |-> << i, 9, 8, i >>], reason |-> << >>] : n \in {30, 31, 32} }
+  \cup { [k |-> "BYE", srcs |-> [i \in 1..n |-> << i % 256, 9, 8, i \div 256 >>], reason |-> << >>] : n \in {30, 31, 32} \cup WrapCounts }
   \cup { [BaseBYE EXCEPT !.reason = Ramp(n, 64)] : n \in TextLens }
   \cup { [BaseAPP EXCEPT !.st = s] : s \in {30, 31, 32, 33, 255} }
   \cup { [BaseAPP EXCEPT !.name = Ramp(n, 64)] : n \in {0, 3, 4, 5} }
@@ -335,7 +337,8 @@ CpKinds ==
      [k |-> "SDES", chunks |-> << Chunk1(1, << Item(1, 1), Item(1, 6) >>) >>],                  \* two CNAMEs
      [k |-> "SDES", chunks |-> << Chunk1(1, << Item(2, 2) >>) >>],                              \* no CNAME
      [k |-> "SDES", chunks |-> << >>],                                                          \* no chunks
-     BaseBYE, Fb("PLI"), BaseAPP, MkXR(<< XrB("rrt") >>), RawOf(199, 3, Ramp(4, 50)) >>
+     BaseBYE, Fb("PLI"), BaseAPP, MkXR(<< XrB("rrt") >>), RawOf(199, 3, Ramp(4, 50)),
+     [BaseAPP EXCEPT !.data = << 7 >>] >>                                                       \* a member that is padded (P bit set)
 CpSeqs(maxlen) == UNION { [1..n -> 1..Len(CpKinds)] : n \in 0..maxlen }
 CpOf(s) == [i \in 1..Len(s) |-> CpKinds[s[i]]]
 
